@@ -115,12 +115,15 @@ theorem numberCore_lex (s : List Char) (neg signed : Bool) (ip fp : List Char) (
     ∃ l' : Lex, l'.WF ∧ l'.str = numberCore s neg signed (ip ++ (if dot then '.' :: fp else [])) e p ∧
       l'.sg ≠ .plus ∧
       ((if signed then 1 else 0) + (ip ++ (if dot then '.' :: fp else [])).length + expLen e ≤ s.length →
-        (natOf (ip ++ fp) = 0 ∧ l'.val = 0) ∨
+        (natOf (ip ++ fp) = 0 ∧ l'.val = 0 ∧ l' = zeroLex) ∨
         (MantWF (dropZeros ip) (dropTrail '0' fp) ∧ (decide (0 < p) && expNearEdge e s.length) = false ∧
           (mlen (rnd p ⟨dropZeros ip, dropTrail '0' fp, e⟩).ip (rnd p ⟨dropZeros ip, dropTrail '0' fp, e⟩).fp +
               expLen (rnd p ⟨dropZeros ip, dropTrail '0' fp, e⟩).e ≤
             mlen (dropZeros ip) (dropTrail '0' fp) + expLen e →
-           l'.val = mantVal neg (rnd p ⟨dropZeros ip, dropTrail '0' fp, e⟩)))) ∧
+           l'.val = mantVal neg (rnd p ⟨dropZeros ip, dropTrail '0' fp, e⟩)) ∧
+          numberCore s neg signed (ip ++ (if dot then '.' :: fp else [])) e p =
+            printNum s neg (s.length - ((if signed then 1 else 0) + (ip.length - (dropZeros ip).length)))
+              (rnd p ⟨dropZeros ip, dropTrail '0' fp, e⟩))) ∧
       MinShape0 l' := by
   have hipd : ∀ c ∈ ip, c ≠ '.' := fun c hc => digit_ne_dot (hip c hc)
   have hfpd : ∀ c ∈ fp, c ≠ '.' := fun c hc => digit_ne_dot (hfp c hc)
@@ -152,7 +155,7 @@ theorem numberCore_lex (s : List Char) (neg signed : Bool) (ip fp : List Char) (
       refine ⟨zeroLex, zeroLex_wf, zeroLex_str, by simp [zeroLex], ?_, zeroLex_shape⟩
       intro _
       left
-      refine ⟨?_, zeroLex_val⟩
+      refine ⟨?_, zeroLex_val, rfl⟩
       rw [natOf_append, natOf_of_dropZeros_nil hz.2, natOf_of_dropTrail_nil hz.1.2]
       simp
     · rename_i hz1
@@ -191,7 +194,7 @@ theorem numberCore_lex (s : List Char) (neg signed : Bool) (ip fp : List Char) (
             · rw [hl'.sg]; exact sgOf_ne_plus neg
             · intro hs
               right
-              refine ⟨hwf0, hguard', fun hR => ?_⟩
+              refine ⟨hwf0, hguard', fun hR => ?_, rfl⟩
               apply hv
               refine Nat.le_trans hR ?_
               have hm := mlen_cases (dropZeros ip) (dropTrail '0' fp)
@@ -224,7 +227,7 @@ theorem numberCore_lex (s : List Char) (neg signed : Bool) (ip fp : List Char) (
     refine ⟨zeroLex, zeroLex_wf, zeroLex_str, by simp [zeroLex], ?_, zeroLex_shape⟩
     intro _
     left
-    refine ⟨?_, zeroLex_val⟩
+    refine ⟨?_, zeroLex_val, rfl⟩
     rw [hfp0, List.append_nil, natOf_of_dropZeros_nil hdz]
 
 theorem takeWhile_all {p : Char → Bool} {l : List Char} (h : ∀ x ∈ l, p x = true) : l.takeWhile p = l := by
@@ -301,13 +304,17 @@ theorem number_lex (l : Lex) (hwf : l.WF) (p : Int)
     (hr : ∀ m0 : Mant, MantWF m0.ip m0.fp → MantWF (rnd p m0).ip (rnd p m0).fp) :
     number l.str p = l.str ∨
     ∃ l' : Lex, l'.WF ∧ l'.str = number l.str p ∧ l'.sg ≠ .plus ∧ (p ≤ 0 → l'.val = l.val) ∧
-      ((l.val = 0 ∧ l'.val = 0) ∨
+      ((l.val = 0 ∧ l'.val = 0 ∧ l' = zeroLex) ∨
        (MantWF (dropZeros l.ip) (dropTrail '0' l.fp) ∧
         (decide (0 < p) && expNearEdge l.expVal l.str.length) = false ∧
         (mlen (rnd p ⟨dropZeros l.ip, dropTrail '0' l.fp, l.expVal⟩).ip (rnd p ⟨dropZeros l.ip, dropTrail '0' l.fp, l.expVal⟩).fp +
             expLen (rnd p ⟨dropZeros l.ip, dropTrail '0' l.fp, l.expVal⟩).e ≤
           mlen (dropZeros l.ip) (dropTrail '0' l.fp) + expLen l.expVal →
-         l'.val = mantVal l.sg.neg (rnd p ⟨dropZeros l.ip, dropTrail '0' l.fp, l.expVal⟩)))) ∧
+         l'.val = mantVal l.sg.neg (rnd p ⟨dropZeros l.ip, dropTrail '0' l.fp, l.expVal⟩)) ∧
+        number l.str p =
+          printNum l.str l.sg.neg
+            (l.str.length - ((if (l.sg != .none) = true then 1 else 0) + (l.ip.length - (dropZeros l.ip).length)))
+            (rnd p ⟨dropZeros l.ip, dropTrail '0' l.fp, l.expVal⟩))) ∧
       MinShape0 l' := by
   unfold number
   split
@@ -376,13 +383,13 @@ theorem number_lex (l : Lex) (hwf : l.WF) (p : Int)
         have hval0 : l.val = dval l.sg.neg (natOf (l.ip ++ l.fp)) (l.expVal - (l.fp.length : Int)) := rfl
         refine ⟨l', h1, h2, h3, ?_, ?_, hsh⟩
         · intro hp
-          rcases h4 hs with ⟨z1, z2⟩ | ⟨_, _, hv⟩
+          rcases h4 hs with ⟨z1, z2, _⟩ | ⟨_, _, hv, _⟩
           · rw [z2, hval0, z1, dval_zero]
           · rw [rnd_nonpos hp] at hv
             rw [hv (Nat.le_refl _), hval0, trim_val]
             rfl
-        · rcases h4 hs with ⟨z1, z2⟩ | ⟨hm, hgd, hv⟩
-          · left; exact ⟨by rw [hval0, z1, dval_zero], z2⟩
-          · right; exact ⟨hm, hgd, hv⟩
+        · rcases h4 hs with ⟨z1, z2, z3⟩ | ⟨hm, hgd, hv, hW⟩
+          · left; exact ⟨by rw [hval0, z1, dval_zero], z2, z3⟩
+          · right; exact ⟨hm, hgd, hv, hW⟩
 
 end Verif.Proofs.Num
